@@ -453,6 +453,9 @@ func cropProject(seed uint64, name string, cc proj.CropCal) *proj.Project {
 	p.Til = nil
 	p.DailyCols = c18DailyCols
 	p.Cfg["NDeposition"] = "20"
+	// every CO2 response method (a derived crop constant may be used by one of them only) at a CO2 level where it matters
+	p.Cfg["CO2method"] = fmt.Sprint(1 + int(seed%3))
+	p.Cfg["CO2concentration"] = []string{"360", "550", "720"}[int((seed/3)%3)]
 	return p
 }
 
@@ -511,6 +514,9 @@ func c18Runs(c *vh.Ctx) {
 			// always one TSUM stage (derived total temperature sum), then a random sample over the kinds
 			for _, in := range insts {
 				if in.p.Name == "TSUM" && in.stage == minI(3, tok.NRENTW) {
+					chosen = append(chosen, in)
+				}
+				if in.p.Name == "MAXAMAX" { // feeds derived photosynthesis constants
 					chosen = append(chosen, in)
 				}
 			}
